@@ -35,12 +35,16 @@ def registered_redirects(client):
 
 class RealSession:
     def __init__(self, oidc=True, jwt_access=False, client_over=None, revoke_refresh_on_issue=False, start=1_700_000_000,
-                 rules="explicit", empty3=False, deny=False, jwt_refresh=False, alias_kwargs=False, two_redirects=False):
+                 rules="explicit", empty3=False, deny=False, jwt_refresh=False, alias_kwargs=False, two_redirects=False,
+                 remove_inactive=False):
         """rules: how the usage rules reach the provider - "explicit" (grant_config spells max_usage: 1 for codes),
         "implied" (grant_config lists supports_minting / expires_in only: the single use of a code is the library's own
         default), "per-client" (the same implied rules as token_usage_rules of every client, no grant_config rules),
         "handler" (no usage rules at all: handler lifetimes and class defaults apply)
-        two_redirects: every client has a second registered redirect_uri (https://<client>.example.com/cb2)"""
+        two_redirects: every client has a second registered redirect_uri (https://<client>.example.com/cb2)
+        remove_inactive: the provider is configured with the documented session parameter
+        session_params = {"remove_inactive_token": True} (default off): Grant.revoke_token then drops the revoked tokens
+        from grant.issued_token; they stay known to the harness (tokobj / tokens keep them) and can still be presented"""
         self.oidc = oidc
         self.rules = rules
         over = {
@@ -75,8 +79,12 @@ class RealSession:
                 for c in CLIENTS:
                     over.setdefault(c, {})["token_usage_rules"] = copy.deepcopy(ur)
                 authz["kwargs"]["grant_config"].pop("usage_rules")
+        self.remove_inactive = remove_inactive
+        # (op_conf's `extra` replaces whole top-level keys: the session parameters are restated with the pinned encrypter)
+        extra = {"session_params": {"encrypter": srv.crypt_config(), "remove_inactive_token": True}} if remove_inactive else None
         self.server = srv.make_server(clients=CLIENTS, client_over=over, oidc=oidc, jwt_access=jwt_access,
-                                      authz=authz, endpoints=eps, jwt_refresh=jwt_refresh, alias_kwargs=alias_kwargs)
+                                      authz=authz, endpoints=eps, jwt_refresh=jwt_refresh, alias_kwargs=alias_kwargs,
+                                      **({"extra": extra} if extra else {}))
         c3 = self.server.context.cdb["client_12"]
         c3.pop("allowed_scopes", None)
         # deny: the provider-wide preference deny_unknown_scopes is on (requests asking for more than the client may have
@@ -424,6 +432,11 @@ class RealSession:
         self.sm.revoke_sub_tree(self.grants[gi][0], 0)
         return ["ok"]
 
+    def listed(self, i):
+        """is token i still in the issued_token list of its grant (remove_inactive_token takes revoked tokens off it)?"""
+        g = self.grants[self.tok_grant[i]][1]
+        return any(t is self.tokobj[i] for t in g.issued_token)
+
     def in_db(self, gi):
         """is the grant object still a node of the session database?"""
         sid, g = self.grants[gi][0], self.grants[gi][1]
@@ -561,11 +574,11 @@ def coq_state(rs):
             based = rs.tokens.index(t.based_on) if t.based_on in rs.tokens else None
             mx = t.usage_rules.get("max_usage")
             mints = t.usage_rules.get("supports_minting")
-            toks.append("(%s, mkTok %s %s %s %s %s %s %s %s %s)" % (
+            toks.append("(%s, mkTok %s %s %s %s %s %s %s %s %s" % (
                 coq_nat(idx), coq_nat(gi), MINTS[t.token_class], "None" if based is None else "(Some %s)" % coq_nat(based),
                 coq_z(t.used), "None" if mx is None else "(Some %s)" % coq_z(mx),
                 "None" if mints is None else "(Some %s)" % coq_list([MINTS[m] for m in mints], "tcls"),
-                coq_bool(bool(t.revoked)), coq_z(t.expires_at), coq_strs(t.scope)))
+                coq_bool(bool(t.revoked)), coq_z(t.expires_at), coq_strs(t.scope)) + " false)")
         areq = g.authorization_request
         gs.append("(mkGrant %s %s %s %s %s %s %s %s %s)" % (
             coq_str(u), coq_str(c), coq_bool(bool(g.revoked)), coq_z(g.expires_at), coq_strs(g.scope),
